@@ -38,8 +38,16 @@ func (s PState) key() string {
 	return strings.Join(parts, ";")
 }
 
+// assumeHook, when set (single-threaded use by ExploreX), supplies assumed constants for values.
+var assumeHook func(v ssa.Value) (*ssa.Const, bool)
+
 // EvalConst evaluates v to a constant under the state, if it can.
 func EvalConst(v ssa.Value, st PState) (*ssa.Const, bool) {
+	if assumeHook != nil {
+		if c, ok := assumeHook(v); ok {
+			return c, true
+		}
+	}
 	switch x := v.(type) {
 	case *ssa.Const:
 		return x, true
@@ -98,6 +106,14 @@ func EvalConst(v ssa.Value, st PState) (*ssa.Const, bool) {
 // state on that path; returning false stops that path. Paths end at returns, panics and
 // no-return calls.
 func Explore(from *ssa.BasicBlock, after ssa.Instruction, init PState, nr NoReturn, visit func(in ssa.Instruction, st PState) bool) {
+	ExploreX(from, after, init, nr, nil, nil, visit)
+}
+
+// ExploreX is Explore with cut edges (never taken) and assumed constants.
+func ExploreX(from *ssa.BasicBlock, after ssa.Instruction, init PState, nr NoReturn, cutEdges map[Edge]bool, assume func(v ssa.Value) (*ssa.Const, bool), visit func(in ssa.Instruction, st PState) bool) {
+	old := assumeHook
+	assumeHook = assume
+	defer func() { assumeHook = old }()
 	type item struct {
 		b   *ssa.BasicBlock
 		idx int
@@ -166,6 +182,17 @@ func Explore(from *ssa.BasicBlock, after ssa.Instruction, init PState, nr NoRetu
 			}
 		}
 		for _, s := range succs {
+			if cutEdges != nil {
+				isCut := false
+				for i, x := range it.b.Succs {
+					if x == s && cutEdges[Edge{it.b, i}] {
+						isCut = true
+					}
+				}
+				if isCut {
+					continue
+				}
+			}
 			// evaluate φ-nodes of s simultaneously for the edge it.b -> s
 			predIdx := -1
 			for i, p := range s.Preds {
